@@ -2534,7 +2534,7 @@ def sym_isinstance_float(x):
 # exploration driver
 
 class PathResult:
-    __slots__ = ("status", "value", "prefix", "checks", "decisions", "solver_s", "detail")
+    __slots__ = ("status", "value", "prefix", "checks", "decisions", "solver_s", "detail", "first_attempt")
 
     def __init__(self, status, value=None, prefix=(), checks=0, decisions=0, solver_s=0.0, detail=None):
         self.status = status      # 'ok' | 'unsupported' | 'budget' | 'infeasible'
@@ -2569,11 +2569,15 @@ class _Alarm:
 
 def explore(fn, max_paths=200000, deadline=None, timeout_ms=20000, max_decisions=20000, prefixes=None, on_path=None, path_seconds=90):
     """Run fn(ctx) once per feasible path (DFS).  Yields PathResult objects via on_path
-    or collects them.  fn may return any value (stored in PathResult.value)."""
+    or collects them.  fn may return any value (stored in PathResult.value).
+    A path that exceeds its wall-clock limit is handed to on_path, which may answer 'retry' (the real code terminated on the
+    path's witness, so the limit was hit by the analysis, e.g. on a loaded machine): it is then re-run once with three times
+    the limit."""
     work = list(prefixes) if prefixes else [()]
     results = []
     n = 0
     complete = True
+    retried = set()
     while work:
         if deadline is not None and time.time() > deadline:
             complete = False
@@ -2582,11 +2586,12 @@ def explore(fn, max_paths=200000, deadline=None, timeout_ms=20000, max_decisions
             complete = False
             break
         prefix = work.pop()
+        again = tuple(prefix) in retried
         ctx = Ctx(prefix, timeout_ms=timeout_ms, max_decisions=max_decisions)
         Ctx.cur = ctx
         try:
             try:
-                with _Alarm(path_seconds):
+                with _Alarm(path_seconds * 3 if again else path_seconds):
                     v = fn(ctx)
                 pr = PathResult('ok', v)
             except PathAbort:
@@ -2603,10 +2608,17 @@ def explore(fn, max_paths=200000, deadline=None, timeout_ms=20000, max_decisions
         pr.checks = ctx.n_checks
         pr.decisions = ctx.forked
         pr.solver_s = ctx.solver_s
-        work.extend(ctx.alts)
+        pr.first_attempt = not again
         n += 1
+        ans = None
         if on_path is not None:
-            on_path(pr, ctx)
+            ans = on_path(pr, ctx)
         else:
             results.append(pr)
+        if ans == 'retry' and not again:
+            # the alternatives found so far are rediscovered by the second run
+            retried.add(tuple(prefix))
+            work.append(prefix)
+            continue
+        work.extend(ctx.alts)
     return results, complete, work
